@@ -413,6 +413,17 @@ def discharged(h):
     return None
 
 
+def _boolish(v):
+    """True / False, a boolean-typed term, or a choice between such values."""
+    if isinstance(v, bool):
+        return True
+    if isinstance(v, T) and v.op == "ite":
+        return _boolish(rules.unfz(v.args[1])) and _boolish(rules.unfz(v.args[2]))
+    if isinstance(v, T) and v.op == "boolop":
+        return _boolish(rules.unfz(v.args[2]))
+    return isinstance(v, T) and v.ty == tm.BOOL
+
+
 def check_totality(ctx, oid="C06.1"):
     R = ctx.R
     ev = ctx.evaluator(max_depth=8)
@@ -424,8 +435,9 @@ def check_totality(ctx, oid="C06.1"):
         R.check(oid, "EXC", fi, "no explicit error escapes %s" % q.split(".")[-1], not esc,
                 "%s lets %s escape instead of returning False" % (q.split(".")[-1], sorted({e.exc for e in esc})),
                 example="an input that triggers %s" % (esc[0].exc if esc else ""))
-        vals = {repr(e.value) for e in s.returns()}
-        R.check(oid, "EXC", fi, "%s returns booleans" % q.split(".")[-1], vals <= {"True", "False"} and vals, "%s returns %s" % (q, sorted(vals)))
+        vals = [e.value for e in s.returns()]
+        R.check(oid, "EXC", fi, "%s returns booleans" % q.split(".")[-1], bool(vals) and all(_boolish(v) for v in vals),
+                "%s returns %s" % (q, sorted({tm.show(v)[:80] for v in vals if not _boolish(v)})))
         seen = set()
         for h in s.hazards:
             key = (h[0], tm.show(h[1])[:200], h[5])
